@@ -163,6 +163,17 @@ func checkC04(ci any, info *CaseInfo) string {
 				info.Class("mutation_is_value_stream")
 				return ""
 			}
+			// only a broken bracket/comma/colon structure carries an obligation;
+			// token-level leniencies (01, +1, adjacent digits after a swap) do not
+			toks, ok := jsonTokens(c.Text)
+			if !ok {
+				info.Class("mutation_unrecognisable_token")
+				return ""
+			}
+			if jsonStructureOK(toks) {
+				info.Class("mutation_structure_ok_under_lenient_tokens")
+				return ""
+			}
 			info.NonTrivial = true
 			if o.Err == nil {
 				return fmt.Sprintf("json parser accepted %q, whose token structure is not that of a JSON text (encoding/json: %v); events: %v", trunc(c.Text), rerr, truncEvs(rec.Evs))
